@@ -20,13 +20,17 @@ EXTENDS Integers, Sequences, FiniteSets, TLC, P_C04
 
 CONSTANTS Lens,        \* source lengths (set of naturals)
           Slicing,     \* TRUE: every slice of the source; FALSE: the unsliced sound and one inner slice
-          Deltas,      \* seek_by amounts (frames, non-zero)
+          DeltaMags,   \* magnitudes of the seek_by amounts (frames, non-zero; both signs are used)
           RateMags,    \* magnitudes of the playback rates in quarters, e.g. {4, 2, 8} = {1, 1/2, 2}
           NegRates,    \* TRUE: negative rates too
           ChunkSizes,  \* frames per process call (constant within a session)
           MaxFrames,   \* output frames per session
           MaxCmds,     \* handle commands per session
           Cmds,        \* subset of {"SeekTo", "SeekBy", "SetLoop", "SetRate"}
+          CmdTimes,    \* the k-th command of a session is issued after CmdTimes-many output frames (set to choose from)
+          ChunkMix,    \* TRUE: one chunk size per settings combination (picked by a hash) instead of all of them
+          SeekRevives, \* FALSE: the code as it is (a seek never restarts a transport that reached the end);
+                       \* TRUE: Transport::seek_to sets `playing = position < num_frames` (proposed fix)
           Wide         \* TRUE: also the input combinations the documentation leaves open
                        \* (loop end <= loop start, start beyond the slice / after the loop end, ...)
 
@@ -44,6 +48,7 @@ ivars == <<c, pos, loop, playing, win, tue, frac, rate, rpend, st, pc, ret, k, t
            cSeekTo, cSeekBy, cLoop, cRate, nf, ncmd, panicked>>
 vars == <<ivars, act, ev, mon, bad>>
 
+Deltas == DeltaMags \cup {-d : d \in DeltaMags}
 Rates == RateMags \cup (IF NegRates THEN {-r : r \in RateMags} ELSE {})
 Tau  == [a |-> "tau"]
 NoVal == [on |-> FALSE, v |-> 0]
@@ -58,16 +63,8 @@ LoopOf(r) == IF r.lp THEN <<r.ls, IF r.le < 0 THEN NF ELSE r.le>> ELSE NoLoop
 Max(a, b) == IF a > b THEN a ELSE b
 
 \* ---------------------------------------------------------------- settings
-MaxLen == CHOOSE x \in Lens : \A y \in Lens : y <= x
 Slices(len) == {<<FALSE, 0, 0>>} \cup
                (IF Slicing THEN {<<TRUE, a, b>> : a \in 0..len, b \in 0..len} ELSE {<<TRUE, 1, len - 1>>})
-CfgsOf(len) ==
-  {[len |-> len, sl |-> s[1], ss |-> s[2], se |-> s[3], start |-> start,
-    lp |-> l[1], ls |-> l[2], le |-> l[3], rev |-> rev, rq |-> rq, sr |-> SR, dev |-> SR, cs |-> cs] :
-      s \in Slices(len), start \in 0..(len + 1),
-      l \in {<<FALSE, 0, -1>>} \cup {<<TRUE, a, b>> : a \in 0..len, b \in -1..(len + 1)},
-      rev \in BOOLEAN, rq \in Rates, cs \in ChunkSizes}
-Cfgs == UNION {CfgsOf(len) : len \in Lens}
 CfgOK(r) ==
   /\ (r.sl => 0 <= r.ss /\ r.ss <= r.se /\ r.se <= r.len)
   /\ LET n == IF r.sl THEN r.se - r.ss ELSE r.len IN
@@ -87,7 +84,14 @@ Pushed(p, pl) == <<win[2], win[3], win[4], [v |-> IF pl THEN FrameAt(p) ELSE 0, 
 TueAfter(pl) == IF pl THEN 4 ELSE Max(tue - 1, 0)
 
 Init ==
-  /\ c \in {r \in Cfgs : CfgOK(r)}
+  /\ \E len \in Lens, rev \in BOOLEAN, rq \in Rates, cs \in ChunkSizes :
+       \E s \in Slices(len), start \in 0..(len + 1), t1 \in CmdTimes, t2 \in CmdTimes,
+          l \in {<<FALSE, 0, -1>>} \cup {<<TRUE, a, b>> : a \in 0..len, b \in -1..(len + 1)} :
+         /\ c = [len |-> len, sl |-> s[1], ss |-> s[2], se |-> s[3], start |-> start,
+                 lp |-> l[1], ls |-> l[2], le |-> l[3], rev |-> rev, rq |-> rq, sr |-> SR, dev |-> SR, cs |-> cs, at |-> <<t1, t2>>]
+         /\ t1 <= t2 /\ (MaxCmds < 2 => t2 = t1) /\ (MaxCmds < 1 => \A t \in CmdTimes : t1 <= t)
+         /\ (ChunkMix => \A x \in ChunkSizes : (x = cs) = (x = 1 + ((len + s[2] + 2 * s[3] + start + l[2] + 3 * l[3] + rq + 12) % Cardinality(ChunkSizes))))
+         /\ CfgOK(c)
   /\ pos = 0 /\ loop = NoLoop /\ playing = FALSE
   /\ win = <<[v |-> 0, i |-> 0], [v |-> 0, i |-> 0], [v |-> 0, i |-> 0], [v |-> 0, i |-> 0]>>
   /\ tue = 0 /\ frac = 0 /\ rate = c.rq /\ rpend = 0 /\ st = "Playing"
@@ -153,7 +157,8 @@ UpdChk ==                                        \* `if !playing && resampler.em
 
 \* ---------------------------------------------------------------- handle calls (between callbacks)
 \* (outside Wide mode only calls that keep the session inside the domain of the statement)
-CanCmd(kind, e) == /\ pc = "idle" /\ nf < MaxFrames /\ ncmd < MaxCmds /\ kind \in Cmds
+CanCmd(kind, e) == /\ pc = "idle" /\ nf < MaxFrames /\ ncmd < MaxCmds /\ ncmd < 2 /\ kind \in Cmds
+                   /\ nf >= c.at[ncmd + 1] /\ nf < c.at[ncmd + 1] + c.cs
                    /\ (Wide \/ mon.open \/ ~Upd(mon, e).open)
 CmdSeekTo(t) ==
   /\ CanCmd("SeekTo", [a |-> "seek_to", t |-> t]) /\ act' = <<"SeekTo", t>>
@@ -216,7 +221,7 @@ SeekW ==                                         \* Transport::seek_to wrap loop
           ELSE /\ tmp' = tmp + (loop[2] - loop[1]) /\ spin' = 1 - spin /\ ev' = Tau
                /\ UNCHANGED <<c, pos, loop, playing, win, tue, frac, rate, rpend, st, pc, ret, k, sdir, ret2, left, zero,
                               cSeekTo, cSeekBy, cLoop, cRate, nf, ncmd, panicked>>
-     ELSE LET pl == IF tmp >= NF THEN FALSE ELSE playing IN     \* never set back to true
+     ELSE LET pl == IF tmp >= NF THEN FALSE ELSE (SeekRevives \/ playing) IN   \* (as it is: never set back to true)
           /\ pos' = tmp /\ playing' = pl
           /\ IF st = "Playing" THEN win' = Pushed(tmp, pl) /\ tue' = TueAfter(pl)
              ELSE UNCHANGED <<win, tue>>
